@@ -731,6 +731,97 @@ Proof.
   intros E; inversion E; subst. split; [discriminate | assumption].
 Qed.
 
+(* ------------------------------------------------------------------ options.Parse *)
+Lemma bytes_cmp_eq a : forall b, bytes_cmp a b = Eq <-> a = b.
+Proof.
+  induction a as [|x a IH]; intros [|y b]; cbn [bytes_cmp]; try (split; [discriminate | intros H; discriminate H]); try (split; reflexivity).
+  destruct (N.compare x y) eqn:E.
+  - apply N.compare_eq_iff in E. subst. rewrite IH. split; [intros ->; reflexivity | intros H; inversion H; reflexivity].
+  - split; [discriminate|]. intros H. inversion H; subst. rewrite N.compare_refl in E. discriminate.
+  - split; [discriminate|]. intros H. inversion H; subst. rewrite N.compare_refl in E. discriminate.
+Qed.
+
+Lemma bytes_eqb_false a b : bytes_eqb a b = false <-> a <> b.
+Proof.
+  split.
+  - intros H ->. rewrite bytes_eqb_refl in H. discriminate.
+  - intros H. destruct (bytes_eqb a b) eqn:E; [|reflexivity]. apply bytes_eqb_spec in E. contradiction.
+Qed.
+
+Lemma olookup_oinsert k v m : forall k', olookup (oinsert k v m) k' = if bytes_eqb k' k then Some v else olookup m k'.
+Proof.
+  induction m as [|[k0 v0] r IH]; intros k'; cbn [oinsert olookup]; [reflexivity|].
+  destruct (bytes_cmp k k0) eqn:E; cbn [olookup].
+  - apply bytes_cmp_eq in E. subst k0. destruct (bytes_eqb k' k); reflexivity.
+  - reflexivity.
+  - rewrite IH. destruct (bytes_eqb k' k0) eqn:E0; [|reflexivity].
+    apply bytes_eqb_spec in E0. subst k0. destruct (bytes_eqb k' k) eqn:E1; [|reflexivity].
+    apply bytes_eqb_spec in E1. subst k'. exfalso.
+    assert (bytes_cmp k k = Eq) by (apply bytes_cmp_eq; reflexivity). congruence.
+Qed.
+
+Definition kv_of (o : bytes) : bytes * bytes := split_key_value o.
+Definition keys_ok (l : list bytes) : Prop := Forall (fun o => fst (kv_of o) <> []) l.
+Definition functional (L : list (bytes * bytes)) : Prop := forall k v v', In (k, v) L -> In (k, v') L -> v = v'.
+Definition represents (m : omap) (L : list (bytes * bytes)) : Prop := forall k v, olookup m k = Some v <-> In (k, v) L.
+
+Lemma opg_spec l : forall m done, represents m done ->
+  match options_parse_go l m with
+  | OpOk m' => represents m' (done ++ map kv_of l) /\ keys_ok l
+  | OpErr => ~ (keys_ok l /\ functional (done ++ map kv_of l))
+  end.
+Proof.
+  induction l as [|o r IH]; intros m done Hrep; cbn [options_parse_go map].
+  - rewrite app_nil_r. split; [exact Hrep | constructor].
+  - fold (kv_of o). destruct (kv_of o) as [k v] eqn:Eo.
+    destruct (is_empty k) eqn:Ek.
+    { intros [Hk _]. inversion Hk as [|? ? H1 _]; subst. rewrite Eo in H1. cbn [fst] in H1. destruct k; [congruence | discriminate]. }
+    assert (Hkne : k <> []) by (destruct k; [discriminate | discriminate]).
+    assert (Hstep : (forall v', olookup m k = Some v' -> v' = v) ->
+              represents (oinsert k v m) (done ++ [(k, v)])).
+    { intros Hsame k' v'. rewrite olookup_oinsert. destruct (bytes_eqb k' k) eqn:E.
+      - apply bytes_eqb_spec in E. subst k'. split.
+        + intros H; inversion H; subst. apply in_or_app. right. left. reflexivity.
+        + intros H. apply in_app_or in H as [H|[H|[]]].
+          * apply Hrep in H. rewrite (Hsame _ H). reflexivity.
+          * inversion H; reflexivity.
+      - apply bytes_eqb_false in E. rewrite (Hrep k' v'). split.
+        + intros H. apply in_or_app. left. exact H.
+        + intros H. apply in_app_or in H as [H|[H|[]]]; [exact H|]. inversion H; subst. congruence. }
+    assert (Hnext : forall m1, represents m1 (done ++ [(k, v)]) ->
+              match options_parse_go r m1 with
+              | OpOk m' => represents m' (done ++ (k, v) :: map kv_of r) /\ keys_ok (o :: r)
+              | OpErr => ~ (keys_ok (o :: r) /\ functional (done ++ (k, v) :: map kv_of r))
+              end).
+    { intros m1 H1. specialize (IH m1 (done ++ [(k, v)]) H1). rewrite <- app_assoc in IH. cbn [app] in IH.
+      destruct (options_parse_go r m1).
+      - destruct IH as [Ha Hb]. split; [exact Ha|]. constructor; [rewrite Eo; exact Hkne | exact Hb].
+      - intros [Hk Hf]. apply IH. split; [inversion Hk; assumption | exact Hf]. }
+    destruct (olookup m k) as [v'|] eqn:El.
+    + destruct (bytes_eqb v' v) eqn:Ev.
+      * apply bytes_eqb_spec in Ev. subst v'. apply Hnext. apply Hstep. intros w Hw. congruence.
+      * apply bytes_eqb_false in Ev. intros [_ Hf]. apply Ev. apply (Hf k v' v).
+        -- apply in_or_app. left. apply Hrep. exact El.
+        -- apply in_or_app. right. left. reflexivity.
+    + apply Hnext. apply Hstep. intros w Hw. discriminate.
+Qed.
+
+Lemma represents_functional m L : represents m L -> functional L.
+Proof. intros H k v v' H1 H2. apply H in H1, H2. congruence. Qed.
+
+(* options.Parse succeeds iff every key (lower-cased, trimmed text before the first '=') is non-empty and
+   no key gets two different values; the resulting map holds exactly the key/value pairs of the input *)
+Theorem options_parse_exact l :
+  match options_parse l with
+  | OpOk m => (forall k v, olookup m k = Some v <-> In (k, v) (map kv_of l)) /\ keys_ok l /\ functional (map kv_of l)
+  | OpErr => ~ (keys_ok l /\ functional (map kv_of l))
+  end.
+Proof.
+  unfold options_parse. pose proof (opg_spec l [] [] ltac:(intros k v; cbn; split; [discriminate | intros []])) as H.
+  cbn [app] in H. destruct (options_parse_go l []); [|exact H].
+  destruct H as [Ha Hb]. split; [exact Ha|]. split; [exact Hb|]. eapply represents_functional. exact Ha.
+Qed.
+
 (* ------------------------------------------------------------------ totality of every parser *)
 Theorem model_no_panic i : has_panic (model i) = false.
 Proof.
